@@ -49,10 +49,11 @@ def _do(obj, act, arg, dtype, is_op):
     if act == "mul_t":
         return obj * Z(arg)
     if act in ("add_op", "sub_op", "jitter_add_op"):
-        from linear_operator.operators import ConstantDiagLinearOperator, DenseLinearOperator, DiagLinearOperator, IdentityLinearOperator
+        from linear_operator.operators import (ConstantDiagLinearOperator, DenseLinearOperator, DiagLinearOperator, IdentityLinearOperator,
+                                               ZeroLinearOperator)
 
         code, sz = arg
-        other = (ConstantDiagLinearOperator(torch.full((1,), 2.0, dtype=dtype), sz) if code == 1 else IdentityLinearOperator(sz, dtype=dtype) if code == 2
+        other = ZeroLinearOperator(sz, sz, dtype=dtype) if code == 5 else (ConstantDiagLinearOperator(torch.full((1,), 2.0, dtype=dtype), sz) if code == 1 else IdentityLinearOperator(sz, dtype=dtype) if code == 2
                  else DiagLinearOperator(torch.ones(sz, dtype=dtype)) if code == 3 else DenseLinearOperator(torch.ones(sz, sz, dtype=dtype)))
         if not is_op:
             o = other.to_dense()
